@@ -17,7 +17,7 @@ RULE = ('Cases = generated scene (exact_counts 45%, layered, split_candidate, me
         'pattern, message).')
 ASSUMPTIONS = ['hit heights in [0, 1e5) ft as the quantifier states',
                'crashes of run() on valid input are C08\'s business: counted under skipped_precondition here']
-BUDGET = {'quick': 1200, 'thorough': 40000}
+BUDGET = {'quick': 900, 'thorough': 40000}
 CORPUS = 'pipeline'
 COVER_TABLE = ('cells = (okta-class tuple of the layers table with <= 4 rows, classes 0/FEW/SCT/BKN/OVC: 781 tuples) x '
                '(pattern of rows at/above the MSA)')
@@ -46,6 +46,22 @@ def enum_case(classes, msa):
                      'MIN_SEP_VALS': [250, 1000]}}
 
 
+OKTA_COUNT = {0: 2, 1: 3, 2: 6, 3: 9, 4: 12, 5: 15, 6: 18, 7: 21, 8: 24}   # hits out of 24 (MAX_HITS_OKTA0=2)
+
+
+def enum_case_oktas(oktas, msa):
+    """ k flat layers 2000 ft apart realising exactly the given okta values. """
+    meas = [('a', -900.0 + 30.0 * i) for i in range(24)]
+    hits = [[] for _ in range(24)]
+    for j, okta in enumerate(oktas):
+        n = OKTA_COUNT[okta]
+        for i in range(n):
+            hits[(i * 24 // n + j) % 24].append(1000.0 + 2000.0 * j)
+    return {'cls': 'enum', 'rows': S.rows_from_hits(meas, hits), 'oktas': list(oktas),
+            'prms': {'MAX_HITS_OKTA0': 2, 'MAX_HOLES_OKTA8': 0, 'MSA': msa, 'MSA_HIT_BUFFER': 0,
+                     'MIN_SEP_VALS': [250, 1000]}}
+
+
 def enum_msas(k):
     out = [None, 500]
     for j in range(k):
@@ -58,7 +74,10 @@ def jobs(tier, seed, kmax=None):
     out = []
     for k in range(1, (kmax or ENUM_K[tier]) + 1):
         for first in range(5):
-            out.append({'name': f'enum-k{k}-{first}', 'k': k, 'first': first})
+            out.append({'name': f'enum-k{k}-{first}', 'k': k, 'first': first, 'what': 'classes'})
+    for k in range(1, 4):
+        for first in range(9):
+            out.append({'name': f'oktas-k{k}-{first}', 'k': k, 'first': first, 'what': 'oktas'})
     return out
 
 
@@ -66,6 +85,15 @@ def run_job(job, ctx):
     import itertools
     k = job['k']
     n_bad = 0
+    if job['what'] == 'oktas':
+        # all okta *value* tuples (0..8) of up to three stacked layers, without MSA and with the MSA at the top base
+        for rest in itertools.product(range(9), repeat=k - 1):
+            for msa in (None, 1000 + 2000 * (k - 1)):
+                case = enum_case_oktas((job['first'],) + rest, msa)
+                ctx.record(case, check(case))
+        if job['first'] == 8:
+            ctx.stats.exhaustive.append(f'all okta value tuples (0..8) of {k} stacked flat layers x MSA None / at the top base')
+        return
     for rest in itertools.product(range(5), repeat=k - 1):
         classes = (job['first'],) + rest
         for msa in enum_msas(k):
